@@ -70,6 +70,7 @@ func (c *modCase) Describe() map[string]any {
 var removeMods = map[TypeRef]godi.ModuleOption{
 	0: godi.Remove[*T0](), 1: godi.Remove[*T1](), 2: godi.Remove[*T2](), 3: godi.Remove[*T3](),
 	TypeRef(NT): godi.Remove[*D0](), TypeRef(NT + 1): godi.Remove[*D1](), TypeRef(NT + 2): godi.Remove[*D2](), TypeRef(NT + 3): godi.Remove[*D3](),
+	TypeRef(NT + ND): godi.Remove[I0](), TypeRef(NT + ND + 1): godi.Remove[I1](),
 }
 
 func removeKeyedMod(t TypeRef, key any) godi.ModuleOption {
@@ -88,6 +89,10 @@ func removeKeyedMod(t TypeRef, key any) godi.ModuleOption {
 		return godi.RemoveKeyed[*D1](key)
 	case TypeRef(NT + 2):
 		return godi.RemoveKeyed[*D2](key)
+	case TypeRef(NT + ND):
+		return godi.RemoveKeyed[I0](key)
+	case TypeRef(NT + ND + 1):
+		return godi.RemoveKeyed[I1](key)
 	default:
 		return godi.RemoveKeyed[*D3](key)
 	}
@@ -102,6 +107,12 @@ func decodeModCase(tier string, idx int, tape *Tape) *modCase {
 			return TypeRef(tape.Choose(StCfg, types))
 		}
 		return TypeRef(NT + tape.Choose(StCfg, types))
+	}
+	pickRemovable := func() TypeRef {
+		if tape.Choose(StOps, 3) == 0 {
+			return ifaceRef(tape.Choose(StOps, 2))
+		}
+		return pickT()
 	}
 	newReg := func() *Reg {
 		r := &Reg{ID: nregs}
@@ -137,12 +148,13 @@ func decodeModCase(tier string, idx int, tape *Tape) *modCase {
 			r.Outs = append(r.Outs, o)
 		}
 		if r.Form == FSingle || r.Form == FInstance {
-			switch tape.Choose(StCfg, 6) {
-			case 0:
+			switch tape.Choose(StCfg, 5) {
+			case 0, 1:
 				r.Name = keyPool[tape.Choose(StCfg, 2)]
-			case 1:
-				r.Group = groupPool[tape.Choose(StCfg, 2)]
 			case 2:
+				r.Group = groupPool[tape.Choose(StCfg, 2)]
+			}
+			if tape.Choose(StCfg, 3) == 0 {
 				r.As = []int{tape.Choose(StCfg, 2)}
 			}
 		}
@@ -182,9 +194,9 @@ func decodeModCase(tier string, idx int, tape *Tape) *modCase {
 			}
 			return n
 		case k == 9:
-			return &mNode{Kind: mRemove, Id: Ident{T: pickT()}}
+			return &mNode{Kind: mRemove, Id: Ident{T: pickRemovable()}}
 		case k == 10:
-			return &mNode{Kind: mRemoveKeyed, Id: Ident{T: pickT(), Key: keyPool[tape.Choose(StOps, 2)]}}
+			return &mNode{Kind: mRemoveKeyed, Id: Ident{T: pickRemovable(), Key: keyPool[tape.Choose(StOps, 2)]}}
 		default:
 			return &mNode{Kind: mNil}
 		}
